@@ -2,7 +2,12 @@
 from vlib.tok import f64, lst, s as S
 from checks.C14 import value as typed_value, TYPES
 ID = 'C15'
-THEOREMS = []
+THEOREMS = ['Nix.C15.resize_preserves_surviving', 'Nix.C15.shrink_then_grow_zero', 'Nix.C15.writeCells_ok', 'Nix.C15.writeColumn_ok',
+            'Nix.C15.readRow_spec', 'Nix.C15.readCells_spec', 'Nix.C15.readColumnRaw_spec', 'Nix.C15.column_oob_rejected',
+            'Nix.C15.row_oob_rejected', 'Nix.C15.rejected_call_leaves_no_trace', 'Nix.C15.readonly_changes_nothing', 'Nix.C15.create_schema',
+            'Nix.C15.resolve_sound', 'Nix.C15.step_agree', 'Nix.C15.history_agree', 'Nix.C15.cell_last_writer',
+            'Nix.C15.history_readRow', 'Nix.C15.history_readCells', 'Nix.C15.history_readColumn', 'Nix.C15.unwritten_zero',
+            'Nix.C15.uncovered_zero', 'Nix.C15.schema_roundtrip']
 FLAVOUR = {'quick': 'plain', 'thorough': 'asan'}
 RULE = ('random histories on one data frame: schema of 1-8 columns over the 7 cell types (names with blanks / UTF-8, units), row count changes '
         '(grow, shrink, to 0), writeRow (full and prefix), writeCells / writeCell (by name and by index, mixed), writeColumn (by name / index, '
@@ -210,3 +215,6 @@ def nontrivial(case, tags):
            any(t.startswith(('df_rrow.ok', 'df_rcells.ok', 'df_rcell.ok', 'df_rcol.ok', 'df_rcolc.ok')) for t in tags)
 def signature(f):
     return '%s:%s:%s' % (f.kind, f.tag().split('.')[0], f.rule())
+
+LEVEL_TEXT = ('Lean 4 theorems about a model of DataFrame / DataFrameHDF5 / Block::createDataFrame that follows the C++ statement order (Janus member resolution through names, all-or-nothing mutators, the resize / offset / count rules of the header templates), for every cell token type, fill function, numeric member conversion and history: by induction over arbitrary call sequences (creation, row-count changes, writeRow, writeCells by name or index, writeColumn with offset and count, reopens, accepted or refused) every cell holds the value of the last accepted write through any of the three paths that covered it since its row was last outside the row count, else the fill value of its column type; readRow, readCells / readCell and every readColumn overload return exactly those cells (the untouched tail of a longer buffer stays); rows that survive a row-count change keep every cell, exposed rows read as fill values, cut rows do not come back; the schema (names, units, types, order, name <-> index) is the one given at creation whatever happens later; a column index past the last column or an unknown name, and a row past the last row, are refused by every access path; a refused call and any call on a read-only file change nothing. The history rule itself (a backwards scan that never builds a table) is evaluated on every read the library answers, in differential histories over schemas of 1-8 columns of the 7 cell types with extremes, NaN payloads, long and UTF-8 strings, read-only sessions and reopen.')
+LEVEL_NOTE = ('Trusted: Lean kernel; the idealised compound dataset (H5Dset_extent keeps a prefix of rows and zero-fills, partial-compound I/O transfers exactly the named members, hyperslab selection) validated each run; HDF5 numeric member conversion only for exactly representable integers; persistence across close + reopen is checked by the correspondence run only; Bool columns are not reachable through the column templates (std::vector<bool>); strings without NUL bytes; harness.')
